@@ -654,11 +654,14 @@ fn struct_from_repr(ast: &DeriveInput, imp: &syn::ItemImpl) -> Result<String, St
             }
             syn::Pat::Ident(pi) if pi.subpat.is_none() => {
                 let g = arm.guard.as_ref().ok_or("binding arm without a guard")?;
+                // `v == CONST` or `CONST == v` (integer equality is symmetric)
                 let ci = match &*g.1 {
-                    syn::Expr::Binary(b) if matches!(b.op, syn::BinOp::Eq(_)) && matches!(&*b.left, syn::Expr::Path(p) if p.path.is_ident(&pi.ident)) => {
-                        match &*b.right { syn::Expr::Path(p) => { let id = p.path.get_ident().ok_or("guard compares with a path")?.to_string();
-                                                                  names.iter().position(|n| *n == id).ok_or("guard names an unknown constant")? }
-                                          _ => return Err("guard does not compare with a constant".into()) }
+                    syn::Expr::Binary(b) if matches!(b.op, syn::BinOp::Eq(_)) => {
+                        let is_binder = |e: &syn::Expr| matches!(e, syn::Expr::Path(p) if p.path.is_ident(&pi.ident));
+                        let other = if is_binder(&b.left) { &*b.right } else if is_binder(&b.right) { &*b.left } else { return Err("guard does not compare the binder".into()) };
+                        match other { syn::Expr::Path(p) => { let id = p.path.get_ident().ok_or("guard compares with a path")?.to_string();
+                                                              names.iter().position(|n| *n == id).ok_or("guard names an unknown constant")? }
+                                      _ => return Err("guard does not compare with a constant".into()) }
                     }
                     _ => return Err("unrecognised guard".into()),
                 };
